@@ -294,8 +294,13 @@ def append_map(func, mask_vars):
 
 
 def analyse_encoders(repo):
-    mol = repo.func(f'{ISO}:MoleculeIsomorphism._cython_compiled_structure')
-    qry = repo.func(f'{ISO}:QueryIsomorphism._cython_compiled_query')
+    import copy as _copy
+    from .astutil import inline_accumulator_helpers
+    mol = _copy.copy(repo.func(f'{ISO}:MoleculeIsomorphism._cython_compiled_structure'))
+    qry = _copy.copy(repo.func(f'{ISO}:QueryIsomorphism._cython_compiled_query'))
+    # undo "extract method" on mask arithmetic: helpers of the shape `v = 0; ...; return v` are expanded at their call sites
+    mol.node = inline_accumulator_helpers(mol.node, mol.module.tree)
+    qry.node = inline_accumulator_helpers(qry.node, qry.module.tree)
     mv = ('v1', 'v2', 'v3', 'v4', 'v')
     mloop = find_loop(mol, lambda n: 'self.atoms()' in ast.unparse(n.iter) and any(
         isinstance(x, ast.Name) and x.id == 'a' for x in ast.walk(n.target)))
